@@ -404,3 +404,38 @@ PROPERTIES["C10"] = {
                      "nano::learner_t::predict", "nano::min_reduce"]},
     ],
 }
+
+_FN_BASE = ["maxq", "maxquad", "maxhilb", "chained_lq", "chained_cb3I", "chained_cb3II", "trid", "qing", "kinks", "cauchy", "sargan", "sphere", "zakharov", "quadratic", "rosenbrock", "exponential",
+            "dixon-price", "chung-reynolds", "axis-ellipsoid", "styblinski-tang", "schumer-steiglitz", "rotated-ellipsoid", "geometric-optimization"]
+_FN_ENET = ["mse+ridge[1]", "mse+ridge[100]", "mse+ridge[10000]", "mse+ridge[1e+06]", "mse+lasso[1]", "mse+lasso[100]", "mse+lasso[10000]", "mse+lasso[1e+06]", "mse+elasticnet[1,1]", "mse+elasticnet[100,100]",
+            "mse+elasticnet[10000,10000]", "mse+elasticnet[1e+06,1e+06]", "mae+ridge[1]", "mae+lasso[1]", "mae+elasticnet[1,1]", "hinge+ridge[1]", "hinge+lasso[1]", "hinge+elasticnet[1,1]",
+            "cauchy+ridge[1]", "cauchy+lasso[1]", "cauchy+elasticnet[1,1]", "logistic+ridge[1]", "logistic+lasso[1]", "logistic+elasticnet[1,1]"]
+_LOSSES = ["mae", "mse", "cauchy", "m-hinge", "s-hinge", "m-squared-hinge", "s-squared-hinge", "s-classnll", "m-savage", "s-savage", "m-tangent", "s-tangent", "m-logistic", "s-logistic", "s-exponential", "m-exponential", "pinball"]
+PROPERTIES["C06"] = {
+    "level": "other",
+    "level_text": "bounded symbolic verification: for every registered benchmark function (dims 1-3) and every registered loss (1-3 outputs, all +-1 target patterns / symbolic real targets) the implemented gradient equals the SYMBOLIC DERIVATIVE of the very term the implementation computed for the value, at every generic point of the input box (points where a comparison holds with equality = kinks are excluded); value-only = value+gradient; declared-convex polynomial / piecewise-polynomial functions satisfy the first-order convexity inequality for all symbolic x, z; per-sample independence, non-negativity and the 0-1 error rules of the losses",
+    "level_note": SRE_NOTE + "; exp/log/atan are ackermannised (fresh variable per application + functional consistency, monotonicity, tangent-line and exp(u)exp(-u)=1 instances); derivative rules are applied symbolically to the value term",
+    "technique": SRE_TECH + "; symbolic differentiation of the executed value term",
+    "explanation": "C06: function_t::vgrad of all benchmark functions and loss_t::{value, vgrad, error} of all losses on symbolic inputs.",
+    "assumptions": SRE_ASSUME + ["inputs boxed: functions [-4,4]^d, loss outputs [-6,6], regression targets [-4,4]", "random benchmark functions (quadratic, kinks, enet_*) use their internally generated concrete data"],
+    "bounds": {"function dims": "1..3 (powell needs multiples of 4: not built at these dims)", "summands": "2", "loss outputs": "1..3"},
+    "outside": ["convexity inequality for objects whose value involves exp/log (over-approximated transcendental functions make the inequality undecidable; reported as skipped per path)",
+                "constraint kinds: gradient/definition covered by C05; linear/gboost objectives: C09", "dims > 3"],
+    "units": [
+        {"engine": "sre", "harness": "C06_functions", "sources": ["C06_functions.cpp"],
+         "quick": ["fn=%s;d=2" % f for f in _FN_BASE] + ["fn=%s;d=2" % f for f in ("mse+ridge[1]", "mse+lasso[100]", "mse+elasticnet[1,1]", "mae+elasticnet[1,1]", "hinge+elasticnet[1,1]", "cauchy+ridge[1]", "logistic+lasso[1]")],
+         "thorough": ["fn=%s;d=%d" % (f, d) for f in _FN_BASE + _FN_ENET for d in (1, 2, 3)],
+         "budget": {"quick": {"deadline_s": 45, "max_paths": 3000, "query_s": 8}, "thorough": {"deadline_s": 300, "max_paths": 50000, "query_s": 20}},
+         "encoded": ["nano::function_t::vgrad", "function_<id>_t::do_vgrad for every registered id", "nano::function_t::{convex, strong_convexity, make}"]},
+        {"engine": "sre", "harness": "C06_losses", "sources": ["C06_losses.cpp"],
+         "quick": ["loss=%s;k=2;pat=1" % l for l in _LOSSES] + ["loss=%s;k=1;pat=0" % l for l in ("mse", "mae", "m-hinge", "m-logistic", "s-classnll", "pinball")],
+         "thorough": ["loss=%s;k=%d;pat=%d" % (l, k, p) for l in _LOSSES for (k, p) in ((1, 0), (1, 1), (2, 0), (2, 1), (2, 2), (3, 1), (3, 5))],
+         "budget": {"quick": {"deadline_s": 45, "max_paths": 3000, "query_s": 8}, "thorough": {"deadline_s": 300, "max_paths": 50000, "query_s": 20}},
+         "encoded": ["nano::flatten_loss_t<...>::{value, vgrad, error} for all 17 registered losses", "nano::loss::detail::{absdiff_t, mclass_t, sclass_t}::error", "nano::pinball_loss_t"]},
+        {"engine": "sre", "harness": "C06_mlobjective", "sources": ["C09_linear.cpp"],
+         "quick": ["f=rrr;n=2;loss=mse;reg=3", "f=rrr;n=2;loss=mae;reg=3", "f=rrs;n=1;loss=m-squared-hinge;reg=3"],
+         "thorough": ["f=rrr;n=3;loss=mse;reg=%d;sc=%d" % (r, sc) for r in (0, 1, 2, 3) for sc in (0, 2)] + ["f=rrr;n=2;loss=mae;reg=3", "f=rrs;n=1;loss=m-squared-hinge;reg=3", "f=rrs;n=1;loss=m-hinge;reg=3"],
+         "budget": {"quick": {"deadline_s": 60, "max_paths": 5000}, "thorough": {"deadline_s": 300, "max_paths": 50000}},
+         "encoded": ["nano::linear::function_t::do_vgrad (value and gradient vs the naive definition, all regulariser combinations)"]},
+    ],
+}
